@@ -921,6 +921,28 @@ func chkBSI(h bsiH) (ok bool, class, detail string) {
 			}
 		}
 	}
+	// the arbitrary-precision batched read (64-bit family): any stored value, an absent column,
+	// a duplicate id; nil means no value
+	if o, is := h.(*ObjBSI64); is && n > 0 {
+		var q []uint64
+		for i := 0; i < n && len(q) < 48; i += step {
+			q = append(q, cols[i])
+		}
+		if len(absent) > 0 {
+			q = append(q, absent[0])
+		}
+		q = append(q, q[0])
+		got := o.B.GetBigValues(q)
+		if len(got) != len(q) {
+			return false, "GetBigValues result length wrong", fmt.Sprintf("GetBigValues(%d ids) returned %d values", len(q), len(got))
+		}
+		for i, c := range q {
+			want, in := h.mget(c)
+			if (got[i] != nil) != in || (in && got[i].Cmp(want) != 0) {
+				return false, "GetBigValues differs from model", fmt.Sprintf("GetBigValues[%d] column %d: got %v want (%v,%v)", i, c, got[i], want, in)
+			}
+		}
+	}
 	if leak := h.planeLeak(); leak != "" {
 		return false, "plane holds a column absent from the existence bitmap", leak
 	}
@@ -1369,6 +1391,10 @@ func realBitCount(h bsiH) (bc int) {
 
 func regBSIUpdates(F *bsiFam) {
 	sfx := F.sfx
+	fam := "BitSliceIndexing"
+	if F.b64 {
+		fam = "roaring64"
+	}
 	reg(&opDef{name: "bsinew" + sfx, tag: "C19",
 		gen: func(w *World, r *Rng) (Step, bool) {
 			i := w.bsiSlot(r)
@@ -1669,6 +1695,21 @@ func regBSIUpdates(F *bsiFam) {
 			dst := F.get(w, st.S[0])
 			var others []bsiH
 			mixed := false
+			// C12: the same merge with one worker, on a clone of the receiver, is what every other
+			// worker count must reproduce
+			var ref bsiH
+			if st.A[0] != 1 && (w.Cfg.Prop == "C12" || w.step%3 == 0) {
+				var srcs []bsiH
+				for _, s := range st.S[1:] {
+					srcs = append(srcs, F.get(w, s))
+				}
+				w.try("C19", func() {
+					if c, _, err := dst.copyBSI(0, fsArg{}, 0, nil); err == nil && c != nil {
+						c.parOr(1, srcs)
+						ref = c
+					}
+				})
+			}
 			for _, s := range st.S[1:] {
 				o := F.get(w, s)
 				others = append(others, o)
@@ -1687,7 +1728,20 @@ func regBSIUpdates(F *bsiFam) {
 				w.probe("bsi" + sfx + "-paror-two-sources")
 			}
 			F.out(w, st.S[0])
-			w.try("C19", func() { dst.parOr(int(st.A[0]), others) })
+			if w.try("C19", func() { dst.parOr(int(st.A[0]), others) }) || ref == nil {
+				return
+			}
+			w.try("C19", func() {
+				for _, c := range dst.mcols() {
+					a, ea := dst.getBig(c)
+					b, eb := ref.getBig(c)
+					if ea != eb || (ea && a.Cmp(b) != 0) {
+						w.fail("C12+C19", "worker-count-dependent", fam+" ParOr: result depends on the worker count", fmt.Sprintf("column %d: ParOr(%d, ...) gives %v (exists=%v), ParOr(1, ...) on a clone of the same receiver gives %v (exists=%v); %s", c, st.A[0], a, ea, b, eb, dst.desc()))
+						return
+					}
+				}
+				w.probe("bsi" + sfx + "-paror-compared-with-one-worker")
+			})
 		}})
 
 	// Increment / IncrementAll: every value of the index non-negative, results in range
@@ -2017,6 +2071,32 @@ func batchVals(h bsiH, shape, n int, seed uint64) []*big.Int {
 				out = append(out, rndBig(r, lo, hi))
 			}
 		}
+	case 5: // relatives of present values under byte-string encodings (sign tags, prefixes):
+		// whatever key a lookup structure derives from a value, two values must not share it
+		tags := []byte{'-', '+', 0x00, 0x01, 0x80, 0xFF, '0', '1', 'n', 'p'}
+		for i := 0; i < n && len(out) < 3*n+8; i++ {
+			v := pick()
+			mag := new(big.Int).Abs(v).Bytes()
+			cands := []*big.Int{new(big.Int).Neg(v)}
+			t := tags[r.Intn(len(tags))]
+			if i%3 == 0 {
+				t = '-'
+			}
+			withTag := new(big.Int).SetBytes(append([]byte{t}, mag...))
+			cands = append(cands, withTag, new(big.Int).Neg(withTag))
+			if len(mag) > 1 {
+				rest := new(big.Int).SetBytes(mag[1:])
+				cands = append(cands, rest, new(big.Int).Neg(rest))
+			}
+			for _, c := range cands {
+				if inBig(c, lo, hi) {
+					out = append(out, c)
+				}
+			}
+			if r.Chance(1, 3) {
+				out = append(out, v)
+			}
+		}
 	default: // present, neighbours, absent
 		for i := 0; i < n; i++ {
 			switch r.Intn(4) {
@@ -2032,7 +2112,7 @@ func batchVals(h bsiH, shape, n int, seed uint64) []*big.Int {
 	return out
 }
 
-const numBatchShapes = 5
+const numBatchShapes = 6
 
 // batchPath names the implementation path the 64-bit BatchEqual family takes.
 func batchPath64(bc int, api int, vals []*big.Int) string {
